@@ -165,6 +165,9 @@ def run(rep, model, tier, seed, broken=()):
                 # the oracle is applied to the implementation's page whether or not the model agrees
                 ndoc += 1
                 prob, sk = docutils_check(ir["text"])
+                if f28_trigger(ir["text"], prob):
+                    rep.dist("known_F28_trigger_pages")
+                    prob = None
                 dom = prob is not None
             if prob is None and (ir["status"] != mr["status"] or ir["text"] != mr["text"]):
                 prob = dict(what="page text differs from the model", impl_status=ir["status"], model_status=mr["status"],
@@ -179,6 +182,19 @@ def run(rep, model, tier, seed, broken=()):
                                   no_input=not dom)
         rep.coverage["disagreements"] = nbad
         rep.coverage["docutils_validated_pages"] = ndoc
+        for kf in core.load_known():
+            if kf["property"] == "C07" and kf["status"] == "known":
+                import json as _json
+                w = _json.loads((core.VERIF / kf["witness"]).read_text())
+                wc = pipe.case_from_json(w["case"])
+                wr = pipe.impl_run(wc, capture=False)
+                wp = docutils_check(wr["text"])[0] if wr["status"] == "ok" else None
+                if f28_trigger(wr["text"], wp):
+                    rep.known(kf["what"])
+                    rep.coverage["known_findings_reconfirmed"] = rep.coverage.get("known_findings_reconfirmed", 0) + 1
+                else:
+                    import sys as _sys
+                    print("KNOWN-FINDING-RESOLVED? witness of %s no longer fails as recorded" % kf["id"], file=_sys.stderr)
         rep.coverage["correspondence"]["page text: Documenter vs Model.Pipeline.document_bytes"] = len(cases)
         rep.sample(pipe.decode_preview(cases[-1]["data"], 500))
         rep._vm_pairs = [(rq, rp) for rq, rp in zip(reqs, replies) if len(rq[4]) < 300][:10]
@@ -186,6 +202,16 @@ def run(rep, model, tier, seed, broken=()):
     finally:
         gen.rand_doc_lines = old
         gen.KWARGS_P = old_kw
+
+
+F28_LINE = re.compile(r"^\s*:[^:\n]+: *([!-/:-@\[-`{-~])\1{3,}\s*$", re.M)
+
+
+def f28_trigger(page, prob):
+    """known finding F28: a field value that is a run of >= 4 identical punctuation characters is a reST
+    transition marker: docutils reports 'Unexpected section title or transition' inside the field"""
+    return bool(prob and "Unexpected section title or transition" in str(prob.get("message", ""))
+                and F28_LINE.search(page or ""))
 
 
 def premise_ok(c):
